@@ -16,7 +16,7 @@ import (
 var c16Violations = []string{
 	"missing-table", "missing-key", "negative-limit", "keys-and-count-only", "min-mod-revision", "max-mod-revision", "min-create-revision", "max-create-revision",
 	"key-1025", "key-4096", "value-2mib+1", "unknown-table", "follower-table-create", "follower-table-delete", "create-empty-name", "delete-empty-name",
-	"empty-oneof", "range-end-1025", "key-1025-with-range-end",
+	"empty-oneof", "range-end-1025", "key-1025-with-range-end", "missing-key-with-range-end",
 	// valid boundary cases: must be accepted
 	"ok-key-1024", "ok-value-2mib", "ok-huge-limit",
 }
@@ -85,6 +85,19 @@ func (r *run) buildRaw(n *Node, st *Step) (call func(ctx context.Context) error,
 		nested = false
 	case "missing-key":
 		key, allowed = nil, inval
+		if method == "txn" {
+			nested = true
+		}
+	case "missing-key-with-range-end":
+		// no key, but a well-formed range end (also the '\0' wildcard): a range needs its start
+		key, allowed = nil, inval
+		rangeEnd = []byte{0}
+		if st.K%2 == 0 {
+			rangeEnd = []byte("zzzz")
+		}
+		if method == "put" {
+			method = "range"
+		}
 		if method == "txn" {
 			nested = true
 		}
@@ -251,7 +264,7 @@ func (r *run) buildRaw(n *Node, st *Step) (call func(ctx context.Context) error,
 			r.out.Probe("raw-nested-among-valid-neighbours")
 		}
 		desc = "Txn with nested " + desc
-		if allowed != nil && (v == "missing-key") {
+		if allowed != nil && (v == "missing-key" || v == "missing-key-with-range-end") {
 			allowed = nil // nested: the property demands refusal, not a particular code
 		}
 		return func(ctx context.Context) error { _, err := kvc.Txn(ctx, req); return err }, allowed, valid, desc
